@@ -94,6 +94,7 @@ pub fn stake_history(out: &mut crate::Out, tag: &str, seed: u64, net: NetID, sta
         let end = match *mode { 10 | 12 => u64::MAX, 11 => u64::MAX - 1, _ => (epoch0 as i64 + de).max(0) as u64 };
         let start = if *mode == 12 { u64::MAX - 1 } else { start };
         if let Some(t) = stake_tx(&mut d, &sym, &fee, amount, amount + diff, start, end, ci % 4, *mode) {
+            same_batch_spends(&mut d, &t);
             let ok = d.apply(&[t.clone()], 0, json!({"why": format!("stake start {} end {} (current epoch {}) declared-diff {} mode {}", start, end, epoch0, diff, mode)}));
             if ok {
                 staked.push((t.clone(), start, end));
@@ -223,6 +224,28 @@ pub fn stake_history(out: &mut crate::Out, tag: &str, seed: u64, net: NetID, sta
 }
 
 /// tries to spend output 0 (the staked coin) and the last output (change) of a stake transaction, each on a clone
+/// the stake transaction and a spender of one of its outputs in ONE batch (the stake is not in the state yet), both orders
+fn same_batch_spends(d: &mut Driver, t: &Transaction) {
+    let id = t.hash_nosigs();
+    let h = d.view().height;
+    for idx in 0..t.outputs.len() {
+        let cid = CoinID::new(id, idx as u8);
+        let cdh = CoinDataHeight { coin_data: t.outputs[idx].clone(), height: h };
+        let mut ins = vec![(cid, cdh.clone())];
+        if cdh.coin_data.denom != Denom::Mel {
+            let fee = d.spendable().into_iter().find(|(c, x)| x.coin_data.denom == Denom::Mel && x.coin_data.value.0 > 1_000_000 && !t.inputs.contains(c));
+            match fee {
+                Some(f) => ins.push(f),
+                None => continue,
+            }
+        }
+        if let Some(sp) = d.build(TxKind::Normal, &ins, vec![], 1, vec![], 0) {
+            d.w.batch(d.cur, &[t.clone(), sp.clone()], 0, json!({"why": format!("stake transaction and a spender of its output {} in one batch", idx)}));
+            d.w.batch(d.cur, &[sp, t.clone()], 2, json!({"why": format!("a spender of output {} and the stake transaction in one batch", idx)}));
+        }
+    }
+}
+
 fn try_spends(d: &mut Driver, t: &Transaction, when: &str) {
     let coins: BTreeMap<CoinID, CoinDataHeight> = d.coins().into_iter().collect();
     let id = t.hash_nosigs();
